@@ -13,7 +13,7 @@ import os
 import shutil
 import tempfile
 
-NAMES = "ABCDE"
+NAMES = "ABCDEFGHIJKL"
 
 
 # ------------------------------------------------------------------------------------------------ input spaces
@@ -40,11 +40,26 @@ def all_inputs(n, maxfail, depths):
                 if sum(1 for x in rc if x) > maxfail:
                     continue
                 for d in depths:
-                    yield {"jobs": js, "hb": hb, "flag": dict(zip(js, fl)), "rc": dict(zip(js, rc)), "depth": d}
+                    yield {"jobs": js, "hb": hb, "flag": dict(zip(js, fl)), "rc": dict(zip(js, rc)), "depth": d, "nolaunch": []}
+
+
+def nolaunch_inputs(n, depths):
+    """Same space as NodeQueue!NoLaunchInputs(n, depths): one job whose command cannot be started."""
+    js = list(NAMES[:n])
+    subsets = [list(c) for r in range(n + 1) for c in itertools.combinations(js, r)]
+    for blk in itertools.product(subsets, repeat=n):
+        hb = {j: list(b) for j, b in zip(js, blk)}
+        if not acyclic(hb):
+            continue
+        for fl in itertools.product([False, True], repeat=n):
+            for d in depths:
+                for x in js:
+                    yield {"jobs": js, "hb": hb, "flag": dict(zip(js, fl)), "rc": {j: 0 for j in js}, "depth": d, "nolaunch": [x]}
 
 
 def inputs_small():
-    return list(all_inputs(1, 1, [1])) + list(all_inputs(2, 2, [1, 2])) + list(all_inputs(3, 3, [1, 2, 3]))
+    return list(all_inputs(1, 1, [1])) + list(all_inputs(2, 2, [1, 2])) + list(all_inputs(3, 3, [1, 2, 3])) + \
+        list(nolaunch_inputs(2, [1, 2])) + list(nolaunch_inputs(3, [1, 2, 3]))
 
 
 # ------------------------------------------------------------------------------------------------ the driver
@@ -80,6 +95,8 @@ _DRV = [None]
 class _FakePopen:
     def __init__(self, cmd, env=None, stdout=None, stderr=None, **kw):
         self.name = env["JADE_JOB_NAME"]
+        if self.name in _DRV[0].inp.get("nolaunch", []):
+            raise FileNotFoundError(2, "No such file or directory", cmd[0])
         self.returncode = None
         self.pid = 4000 + NAMES.index(self.name)
         _DRV[0].alive.add(self.name)
@@ -198,6 +215,11 @@ def run_queue(inp, sched):
             "alive": sorted(drv.alive), "rerun": drv.rerun}
 
 
+def _same_as_before(inp, sched, o):
+    prev = run_queue(inp, sched[:-1])
+    return prev["ev"] == o["ev"]
+
+
 def explore(inp, limit=4000):
     """Every exit schedule of `inp` (depth-first, re-executing from the start for each prefix); returns the final
     observations: runs that ended, runs that raised, and runs that can never end (nothing alive, queue not empty)."""
@@ -218,9 +240,13 @@ def explore(inp, limit=4000):
         if o["rerun"]:
             subsets.append([])          # a re-run iteration happens whether or not somebody exits
         if not subsets:
-            o["end"] = "stuck"          # nothing alive, nothing canceled in flight, and the queue still waits
-            out.append(o)
-            continue
+            # nothing alive and no re-run iteration pending: further polls (empty exit sets) either move the queue or
+            # change nothing any more -- only then it is stuck (the queue still waits, for ever)
+            if len(sched) >= 2 and sched[-1] == [] and sched[-2] == [] and _same_as_before(inp, sched, o):
+                o["end"] = "stuck"
+                out.append(o)
+                continue
+            subsets = [[]]
         for x in subsets:
             stack.append(sched + [x])
     for o in out:
@@ -235,3 +261,53 @@ def explore_many(inputs):
     for inp in inputs:
         res.extend(explore(inp))
     return res
+
+
+# ------------------------------------------------------------------------------------------------ larger inputs, sampled
+def random_input(rng, n_min=5, n_max=9):
+    """A cancellation-heavy batch: a forest of dependents below one or two failing jobs (most of them flagged), some
+    independent jobs, a small process limit."""
+    n = rng.randint(n_min, n_max)
+    js = list(NAMES[:n])
+    order = js[:]
+    rng.shuffle(order)
+    pos = {j: i for i, j in enumerate(order)}
+    nindep = rng.randint(0, 3)
+    hb = {}
+    for j in js:
+        earlier = [k for k in js if pos[k] < pos[j]]
+        if not earlier or pos[j] >= n - nindep:
+            hb[j] = []
+        else:
+            k = rng.choice(earlier[-4:])
+            hb[j] = sorted({k} | ({rng.choice(earlier)} if rng.random() < 0.25 else set()))
+    roots = [j for j in js if not hb[j]]
+    fails = set(rng.sample(roots, min(len(roots), rng.randint(1, 2))))
+    if rng.random() < 0.3:
+        fails.add(rng.choice(js))
+    return {"jobs": js, "hb": hb, "flag": {j: rng.random() < 0.8 for j in js}, "rc": {j: int(j in fails) for j in js},
+            "depth": rng.choice([1, 1, 2, 3]), "nolaunch": []}
+
+
+def random_run(inp, seed):
+    """One random exit schedule of `inp` (extended step by step; exits are lazy: a job tends to run for several polls)."""
+    import random
+    rng = random.Random(seed)
+    sched = []
+    for _ in range(200):
+        o = run_queue(inp, sched)
+        if o["end"] != "more":
+            break
+        alive = o["alive"]
+        x = [j for j in alive if rng.random() < 0.35]
+        if not x and alive and not o["rerun"] and rng.random() < 0.7:
+            x = [rng.choice(alive)]
+        if not alive and not o["rerun"]:
+            if len(sched) >= 2 and sched[-1] == [] and sched[-2] == [] and _same_as_before(inp, sched, o):
+                o["end"] = "stuck"
+                break
+            x = []
+        sched.append(x)
+    o.pop("alive", None)
+    o.pop("rerun", None)
+    return o
